@@ -26,8 +26,8 @@ ALL = {
          "Exhaustive over the stated (length, start, end, step) cube and index range in several contexts, parsed and programmatic, plus extremes at the edge of the I-JSON range; results equal RFC 9535 2.3.4.2.2 (i128 transcription), no panic in the overflow-checked build, every case terminates within its CPU budget.", "4/C11"),
  "C08": ("crash / CPU-time monitor: isolated worker processes (BEGIN/END case log, deaths attributed to the open case, CPU-time budget from /proc) under release and overflow-checked builds on an 8 MiB stack (flat chains on 2 MiB), required ladder rungs also in an unoptimised build, blocked workers detected (no CPU for 30 s); nesting ladders",
          "Held on every execution produced: valid/near-valid/arbitrary strings, extreme integers at every integer position, programmatic queries, hostile documents, regex stress and nesting ladders through every public entry point; no panic, no worker death, no case above 30 CPU-seconds, no Err from evaluating a parsed query. Required nesting bounds are enforced; failures beyond them are explored and compared with recorded known findings.", "4/C08"),
- "C09": ("runtime monitor: reference/reference_mut vs the address map and a location-based model update (frame condition), non-existent paths, update histories",
-         "Held on every execution produced: every location of small exhaustive, hostile-name, curated and random documents resolves to exactly its node; ten kinds of non-existent paths answer None; writes through reference_mut equal our own update of a copy (nothing else changed); random update histories over all paths of a query stay equal to the model.", "4/C09"),
+ "C09": ("runtime monitor: reference/reference_mut vs the address map and a location-based model update (frame condition), non-existent paths, update histories, round trip of the paths the library itself reports",
+         "Held on every execution produced: every location of small exhaustive, hostile-name, curated and random documents resolves to exactly its node, through the Normalized Path rendered by the reference and through the path the library itself reports for it ($..* / $.*, sampled); ten kinds of non-existent paths answer None; writes through reference_mut equal our own update of a copy (nothing else changed); random update histories over all paths of a query stay equal to the model.", "4/C09"),
  "C12": ("runtime monitor over histories and schedules: entry-point agreement, fresh-process baselines per (query, document), random histories with allocation churn / reused parsed query / mutation, barrier-started threads with hook-injected yields, compile-time Send+Sync probe",
          "Held on every execution produced: the four entry points agree position by position incl. errors; every occurrence of a pair in random histories (built to collide under plausible cache keys) and in 2-16-thread schedules equals the result a fresh process computes; the document is unchanged. Schedules are sampled, not enumerated (distinct interleavings counted in the evidence).", "4/C12"),
  "C13": ("oracle-free runtime monitor: results (node addresses) of every RFC-equivalent spelling of one AST compared with the canonical spelling",
